@@ -26,6 +26,21 @@ theorem stream_no_wraparound (b : Bytes) (limit : Nat) (ops : List SOp) (hL : de
     ∀ e ∈ (runOps ops (newStream b limit)).stack, e.1 ≤ e.2 :=
   stackOK_pos_le _ _ (stream_inv b limit ops hL).stk
 
+/-- The in-list bound check computed in `uint64` (`tos.size - tos.pos` with wrap-around) is the
+    truncated `Nat` subtraction the model uses, in every reachable state. -/
+theorem in_list_check_exact (b : Bytes) (limit : Nat) (ops : List SOp) (hL : declared b limit < 2 ^ 64) :
+    ∀ e ∈ (runOps ops (newStream b limit)).stack, (e.2 + 2 ^ 64 - e.1) % 2 ^ 64 = (e.2 - e.1) % 2 ^ 64 := by
+  intro e he
+  have := stream_no_wraparound b limit ops hL e he
+  have h : e.2 + 2 ^ 64 - e.1 = (e.2 - e.1) + 2 ^ 64 := by omega
+  rw [h, Nat.add_mod_right]
+
+/-- Why the *form* of the check matters (T-gen `bound_checks_no_addition`): with one byte of a
+    9-byte list consumed, an element declaring 2^64-1 bytes is refused by `size > listSize - pos`
+    but would pass `pos + size > listSize` evaluated in `uint64`. -/
+theorem additive_check_would_wrap :
+    (2 ^ 64 - 1 > 9 - 1) ∧ ¬ ((1 + (2 ^ 64 - 1)) % 2 ^ 64 > 9) := by decide
+
 /-- never reads past the declared input -/
 theorem bounded_reads (b : Bytes) (limit : Nat) (ops : List SOp) (hL : declared b limit < 2 ^ 64) :
     (runOps ops (newStream b limit)).consumed ≤ declared b limit := by
